@@ -428,55 +428,6 @@ pub fn c04(em: &mut Emit, thorough: bool, seed: u64) {
             &format!("rand:{}", o.status),
         );
     }
-    // malformed validators: not well-formed, so only model agreement and no panic
-    let n = if thorough { 50_000 } else { 3_000 };
-    for _ in 0..n {
-        let mut e = HEntity::new(10);
-        e.etag = Some(strong(b"x").render());
-        e.mtime = Some(UNIX_EPOCH + Duration::new(T0, 0));
-        let mut q = HReq::get();
-        let bad = |rng: &mut Rng| -> Vec<u8> {
-            const FIXED: [&[u8]; 12] = [
-                b"\"x\" ,\"y\"",
-                b"\"x\"\"y\"",
-                b"\"x",
-                b"x",
-                b"W/x",
-                b"w/\"x\"",
-                b"\"x\",",
-                b",\"x\"",
-                b"\"x\", ",
-                b"* ",
-                b"\"x\" \"y\"",
-                b"",
-            ];
-            if rng.chance(2, 3) {
-                rng.pick(&FIXED).to_vec()
-            } else {
-                random_header_bytes(rng, 10)
-            }
-        };
-        if rng.chance(1, 2) {
-            q.if_match = Some(bad(&mut rng));
-        }
-        if rng.chance(1, 2) {
-            q.if_none_match = Some(bad(&mut rng));
-        }
-        if rng.chance(1, 3) {
-            q.ius = classify_date(&random_header_bytes(&mut rng, 8));
-        }
-        if rng.chance(1, 3) {
-            q.ims = classify_date(b"Sun, 06 Nov 1994 08:49:37 GMX");
-        }
-        let o = observe_serve(&q, &e);
-        let p = pred(!o.panicked, || "serve panicked".into());
-        em.case(
-            &serve_line(&q, &e, o.now),
-            &o.show(),
-            &p,
-            &format!("mal:{}", o.status),
-        );
-    }
 }
 
 // ---------------------------------------------------------------------------------------
@@ -591,6 +542,55 @@ pub fn c05(em: &mut Emit, thorough: bool, seed: u64) {
 
 pub fn c13(em: &mut Emit, thorough: bool, seed: u64) {
     let mut rng = Rng::new(seed ^ 0xC13);
+    // malformed validators: not well-formed, so only model agreement and no panic
+    let n = if thorough { 50_000 } else { 3_000 };
+    for _ in 0..n {
+        let mut e = HEntity::new(10);
+        e.etag = Some(strong(b"x").render());
+        e.mtime = Some(UNIX_EPOCH + Duration::new(T0, 0));
+        let mut q = HReq::get();
+        let bad = |rng: &mut Rng| -> Vec<u8> {
+            const FIXED: [&[u8]; 12] = [
+                b"\"x\" ,\"y\"",
+                b"\"x\"\"y\"",
+                b"\"x",
+                b"x",
+                b"W/x",
+                b"w/\"x\"",
+                b"\"x\",",
+                b",\"x\"",
+                b"\"x\", ",
+                b"* ",
+                b"\"x\" \"y\"",
+                b"",
+            ];
+            match rng.below(4) {
+                0 => rng.pick(&FIXED).to_vec(),
+                1 | 2 => malformed_tags(rng),
+                _ => random_header_bytes(rng, 10),
+            }
+        };
+        if rng.chance(1, 2) {
+            q.if_match = Some(bad(&mut rng));
+        }
+        if rng.chance(1, 2) {
+            q.if_none_match = Some(bad(&mut rng));
+        }
+        if rng.chance(1, 3) {
+            q.ius = classify_date(&random_header_bytes(&mut rng, 8));
+        }
+        if rng.chance(1, 3) {
+            q.ims = classify_date(b"Sun, 06 Nov 1994 08:49:37 GMX");
+        }
+        let o = observe_serve(&q, &e);
+        let p = pred(!o.panicked, || "serve panicked".into());
+        em.case(
+            &serve_line(&q, &e, o.now),
+            &o.show(),
+            &p,
+            &format!("G:malcond:{}", o.status),
+        );
+    }
     // corpus
     {
         let mut q = HReq::get();
@@ -646,7 +646,9 @@ pub fn c13(em: &mut Emit, thorough: bool, seed: u64) {
                 2 => Some(malformed_range(rng)),
                 3 => Some(match kind {
                     0 => render_specs(&[random_rendered(rng, len), random_rendered(rng, len)]),
+                    1 if rng.chance(1, 2) => malformed_tags(rng),
                     1 => b"\"x\", W/\"y\"".to_vec(),
+                    _ if rng.chance(1, 3) => malformed_tags(rng),
                     _ => b"\"x\"".to_vec(),
                 }),
                 _ => Some(b"*".to_vec()),
